@@ -15,6 +15,7 @@ CHECKS = {
          "interval, merge! of any n>=1 with late greeters, concat! of any n, flatten, share with any number of sinks) and every "
          "configuration reachable under the conformant environment (unbounded nesting and history): greet_once and greet_first of the "
          "trace (readable, monitor-free predicates of MonitorSound.v). combine!: the monitor never records a C01 kind (any arity). "
+         "Programs: pipeline_sound (composition theorem) gives the same for every component of every linear pipeline of any length. "
          "The tie to the code is the correspondence check run on every invocation; the extracted monitors also run on the real traces.",
          PROOF_TECH),
  "C02": ("proof", "As C01 for term_final (nothing after a Terminate/Error). share: proved for the environment C12 quantifies over "
@@ -26,11 +27,15 @@ CHECKS = {
  "C05": ("proof", "Theorems: the monitor's ErrLost/ErrChanged clauses never fire for map, filter, scan, skip, take, merge!, concat!, share "
          "(every reachable configuration). combine!: C05_combine_refuted is a machine-checked witness that the statement is FALSE "
          "(known finding KF1, replayed on the crate each run); ErrChanged never fires.", PROOF_TECH),
- "C06": ("proof", "PARTIAL. Proved: the list function of a pipeline is left-to-right application; the lazy pull interpreter delivers exactly "
-         "sem p xs, completes, and advances the iterator <= length xs + 1 times (<= n behind a take on unbounded input). The real crate is "
-         "compared with that interpreter on random pipelines (depth 0-5) each run. Not proved: that the composed callbag models refine the "
-         "interpreter for arbitrary nesting (per-stage contracts are C07/C14/C15).",
-         "Coq proof of the list-function/lazy-interpreter equivalence + differential test of real pipelines against it"),
+ "C06": ("proof", "PARTIAL. Proved: (1) the list function of a pipeline is left-to-right application; the lazy pull interpreter delivers exactly "
+         "sem p xs, completes, and advances the iterator <= length xs + 1 times (<= n behind a take on unbounded input). (2) Composition "
+         "theorem (Chain.v, Programs.v): for every pipeline of map/filter/scan/take/skip stages of ANY length over ANY iterator, wired "
+         "component model to component model, in every reachable state f has been called on exactly the list function of the defined prefix "
+         "of the iterator pulled so far, in order (pipeline_functional, pipeline_for_each), and no component violates the protocol or "
+         "panics (pipeline_sound). The net semantics is tied to the crate by running random linear pipelines on both each run; the real "
+         "crate is also compared with the lazy interpreter on random pipelines (depth 0-5, incl. multi-member concat!, map+flatten). Not "
+         "proved: liveness (a pull-driven pipeline runs to exhaustion), the next() count of the composed models, concat!/flatten stages.",
+         "Coq assume-guarantee composition theorem over the component models + list-function/lazy-interpreter equivalence + differential tests"),
  "C07": ("proof", "Theorems: at every control point data_out = map f / filter c / scan_list r seed / firstn n / skipn n of data_in, for all "
          "parameters and all environments (push and pull are the same relation); sink and upstream end together (paired); take completes "
          "and stops upstream right after the nth item (take_complete).", PROOF_TECH),
@@ -70,7 +75,8 @@ CHECKS = {
          "subscription receives exactly one Error. Independence of subscriptions is C13. Real executors/timers are modelled by the harness's "
          "mock Nurse+Timer (named in the trusted base).", PROOF_TECH),
  "C17": ("proof", "Theorems: no_panic (trace c) / dead c = false in every reachable configuration of every component (every panic!/expect/"
-         "unwrap that depends on state is an APanic branch of the model). Pipelines: validated by catch_unwind in the correspondence runs.",
+         "unwrap that depends on state is an APanic branch of the model). Linear pipelines of any length: proved (C17_pipeline, composition "
+         "theorem); operator trees: validated by catch_unwind in the correspondence runs.",
          PROOF_TECH),
  "C18": ("proof", "Interleaving model (Threads.v, SC at the granularity of instrumented accesses): exhaustively explored in the extracted model, "
          "compared event by event with real OS threads under the token-passing scheduler through the cfg(callbag_verif) hooks. Invariant "
